@@ -16,8 +16,8 @@ from lib import clist, cstr, cbool, cz
 
 warnings.filterwarnings("ignore")
 N = {"quick": dict(strings=260, literals=160, exprs=220, pipes=45, corner=95, search=400),
-     "thorough": dict(strings=6000, literals=3000, exprs=5000, pipes=1200, corner=2500, search=6000)}
-PER_FILE = 350
+     "thorough": dict(strings=4000, literals=2000, exprs=3000, pipes=400, corner=1000, search=3000)}
+PER_FILE = 300
 _ENV = {}
 
 
@@ -191,9 +191,17 @@ def lark_lex(text):
 
 
 # ---- Python tokens of a printed pipeline
+class TokenizeFailed(Exception):
+    """the printed text is not even a token stream Python accepts"""
+
+
 def py_tokens(text):
+    try:
+        toks = list(tokenize.generate_tokens(io.StringIO(text).readline))
+    except (tokenize.TokenError, SyntaxError, IndentationError) as e:
+        raise TokenizeFailed(type(e).__name__ + ": " + str(e)[:120])
     out = []
-    for t in tokenize.generate_tokens(io.StringIO(text).readline):
+    for t in toks:
         ty = t.type
         if ty in (tokenize.NL, tokenize.NEWLINE, tokenize.INDENT, tokenize.DEDENT, tokenize.ENDMARKER, tokenize.COMMENT):
             continue
@@ -211,6 +219,18 @@ def py_tokens(text):
             out.append(("sym", t.string))
         else:
             raise Unsupported("token type %s" % tokenize.tok_name[ty])
+    return out
+
+
+def norm_tokens(toks):
+    """a token stream up to what black may change: string literals by VALUE (quote style), no comma before a closing bracket"""
+    out = []
+    for t in toks:
+        if t[0] == "str":
+            t = ("strval", ast.literal_eval(t[1]))
+        if t[0] == "sym" and t[1] in ")]}" and out and out[-1] == ("sym", ","):
+            out.pop()
+        out.append(t)
     return out
 
 
@@ -437,9 +457,11 @@ def known_names(extra):
     return out
 
 
+ALL_NAMES = set()          # every operator / method name mentioned by a case of this run: the shared `known` list K0 is computed from it
+
+
 def env_c(node_or_terms, extra_strings=()):
-    """(mkenv known win ftab npl) for one pipeline"""
-    er = env()["er"]
+    """(mkenv K0 W0 ftab npl) for one pipeline; K0 / W0 are defined once per case file (see preamble())"""
     names, floats, strings = set(), set(), list(extra_strings)
     if isinstance(node_or_terms, list):
         terms = node_or_terms
@@ -449,8 +471,16 @@ def env_c(node_or_terms, extra_strings=()):
     for t in terms:
         names_of_term(t, names)
         floats_of_term(t, floats)
+    ALL_NAMES.update(names)
+    return "(mkenv K0 W0 %s %s)" % (ftab_c(floats), npl_c(strings)), floats
+
+
+def preamble():
+    """the names the running library accepts (among everything this run mentions) and its windowed-function names, once per file"""
+    er = env()["er"]
     win = sorted(er.fn_names_that_imply_windowed_situation)
-    return "(mkenv %s %s %s %s)" % (clist([cstr(n) for n in known_names(names)]), clist([cstr(n) for n in win]), ftab_c(floats), npl_c(strings)), floats
+    return (PREAMBLE + "Definition K0 : list string := %s.\nDefinition W0 : list string := %s.\n"
+            % (clist([cstr(n) for n in known_names(ALL_NAMES)]), clist([cstr(n) for n in win])))
 
 
 PREAMBLE = ("From Coq Require Import List Bool ZArith NArith QArith String.\nImport ListNotations.\n"
@@ -1229,7 +1259,10 @@ def run(chk):
     rng, tier = chk.rng, chk.tier
     n = N[tier]
     E = env()
+    phase, tph = {}, time.time()
     chk.prove([], extra_vo=["theories/Model/PipePrintCases.vo"])
+    phase["prove"] = round(time.time() - tph, 1)
+    tph = time.time()
     chk.cov["trusted_base"] = [
         "Coq 8.16.1 kernel + vm_compute",
         "hand models Model/PipePrintStr.v (str.__repr__, Python string-literal values, Expression.to_python as text, the lark lexer on that text), Model/PipePrintSyn.v (tokens / syntax / parser of the printed Python subset), "
@@ -1275,6 +1308,8 @@ def run(chk):
             v = None                  # prefixes and triple quotes are outside the model: it must answer None
         add_case("(CUnq %s %s)" % (cstr(lit), "None" if v is None else "(Some %s)" % cstr(v)), {"kind": "literal", "literal": lit})
     chk.dist("string_cases", len(terms))
+    phase["strings"] = round(time.time() - tph, 1)
+    tph = time.time()
 
     # ---------------------------------------------------------------- (c) expressions
     from data_algebra.data_ops import TableDescription
@@ -1330,9 +1365,12 @@ def run(chk):
             else:
                 rc = "Err"
             if rc is not None and not (set(CORNER_COLS) & set(keyword.kwlist)):
-                add_case("(CParse %s %s %s %s %s)" % (ftab_c(fl, extra), clist([cstr(x) for x in known_names(names)]), clist([cstr(c) for c in CORNER_COLS]), cstr(text), rc),
+                ALL_NAMES.update(names)
+                add_case("(CParse %s K0 %s %s %s)" % (ftab_c(fl, extra), clist([cstr(c) for c in CORNER_COLS]), cstr(text), rc),
                          {"kind": "parse", "text": text})
     chk.dist("expressions", n_expr)
+    phase["expressions"] = round(time.time() - tph, 1)
+    tph = time.time()
 
     # ---------------------------------------------------------------- (d, e) pipelines
     scripts = []
@@ -1362,7 +1400,7 @@ def run(chk):
             continue
         scripts.append(("corner", s, None))
 
-    n_normal = n_modelled = 0
+    n_normal = n_modelled = n_black = 0
     seen_text = set()
     oracle_stats = {"pipelines": 0, "evaluated_on_pandas": 0, "sql_generated": 0, "failures": 0, "known": 0}
     for origin, script, frames in scripts:
@@ -1383,7 +1421,7 @@ def run(chk):
             chk.dist("node_" + nd.node_name)
         oracle_stats["pipelines"] += 1
         seed = rng.randrange(1 << 30)
-        which = None if (tier == "thorough" or origin in ("corpus", "special") or rng.random() < 0.34) else FAST_VARIANTS
+        which = None if (origin in ("corpus", "special") or rng.random() < (0.6 if tier == "thorough" else 0.34)) else FAST_VARIANTS
         fails, st = oracle(p, random.Random(seed), frames, which)
         oracle_stats["variants_all" if which is None else "variants_fast"] = oracle_stats.get("variants_all" if which is None else "variants_fast", 0) + 1
         oracle_stats["evaluated_on_pandas"] += int(st["evaluated"])
@@ -1408,6 +1446,9 @@ def run(chk):
         except Unsupported as u:
             chk.dist("pipeline_outside_model:" + str(u).split(" ")[0])
             continue
+        except TokenizeFailed as u:
+            chk.corr_break("the text of to_python() is not a Python token stream: " + str(u), {"script": script, "text": t0[1][:1500]})
+            continue
         if _uses_keyword_column(p):
             chk.dist("pipeline_outside_model:keyword_or_non_ascii_column_in_expression")
             continue
@@ -1419,11 +1460,19 @@ def run(chk):
             tv = safe(mk)
             if tv[0] != "ok":
                 continue
+            if vname == "pretty":
+                # the assumption about black: layout, quote style and trailing commas only
+                try:
+                    if norm_tokens(py_tokens(tv[1])) != norm_tokens(toks):
+                        chk.corr_break("black changed the token stream of a printed pipeline beyond layout / quotes / trailing commas", {"script": script, "plain": t0[1][:1200], "black": tv[1][:1200]})
+                    n_black += 1
+                except (Unsupported, TokenizeFailed):
+                    pass
             q = safe(lambda: E["eval_da_ops"](tv[1], data_model_map=None))
             try:
                 tk = py_tokens(tv[1])
                 rc = "None" if q[0] != "ok" else "(Some %s)" % c_op(q[1])
-            except Unsupported:
+            except (Unsupported, TokenizeFailed):
                 continue
             add_case("(CRebuild %s %s %s)" % (ec, clist([ptok_c(t) for t in tk]), rc), dict(info, what="rebuild:" + vname))
         if not causes and not fails:
@@ -1433,16 +1482,20 @@ def run(chk):
     chk.cov["oracle"]["what"] = "q = eval_da_ops(text) for to_python plain / indent=4 / pretty, repr, str, black line_length=40, and pickle: no exception, q == p, p == q, same to_sql text, same Pandas result (column and row order)"
     check_float_assumption(chk, all_floats)
 
+    phase["pipelines_and_oracle"] = round(time.time() - tph, 1)
+    tph = time.time()
     # ---------------------------------------------------------------- run the cases inside Coq
-    failing, errors, n_checked = lib.run_case_files("cases_C12", PREAMBLE, terms, "check_cases", per_file=PER_FILE)
+    failing, errors, n_checked = lib.run_case_files("cases_C12", preamble(), terms, "check_cases", per_file=PER_FILE)
     kinds = {}
     for m in meta:
         k = m.get("what") or m["kind"]
         k = k.split(":")[0]
         kinds[k] = kinds.get(k, 0) + 1
     chk.cov["correspondence"] = {"cases": len(terms), "checked_in_coq": n_checked, "by_kind": kinds, "disagreements": len(failing), "errors": len(errors),
-                                 "pipelines_with_model_image": n_modelled, "normal_form_coverage": f"{n_normal} pipelines without a listed limitation, all required to be normal"}
+                                 "pipelines_with_model_image": n_modelled, "black_token_streams_compared": n_black, "normal_form_coverage": f"{n_normal} pipelines without a listed limitation, all required to be normal"}
     chk.cov["traces_validated_against_impl"] = n_checked
+    phase["coq_cases"] = round(time.time() - tph, 1)
+    chk.cov["phase_s"] = phase
     for e in errors[:3]:
         chk.corr_break("case file did not compile: " + e[:300], e)
     for idx in failing[:8]:
